@@ -138,14 +138,18 @@ def classVerdict (o : Trace.Options) (ty : Ty) (implJ : Json) (model spec : R (L
   let dash (x : String) := x.replace " " "-"
   let ic := SaModel.Lemmas.C08.documentedError (implMsg implJ)
   let walk := Spec.walkable o "$" ty
+  -- a root that is BOTH nullable and no struct (e.g. Option<u8>) is refused for either reason: the property does not fix
+  -- which of the two always-failing root checks speaks first (false-alarm probe g08)
+  let rootErr (s : String) := s == "the root cannot be nullable" || s == "the root must be a struct"
   let c := match spec with
     | .error (.err s) =>
-      if ic == s || (!walk && ic == "budget") then none else some s!"C08/error-class/expected={dash s}/impl={dash ic}"
+      if ic == s || (!walk && ic == "budget") || (rootErr ic && rootErr s) then none
+      else some s!"C08/error-class/expected={dash s}/impl={dash ic}"
     | _ => none
   let a := match model with
     | .error (.err m) =>
       let mc := SaModel.Lemmas.C08.documentedError m
-      if mc == ic then none else some s!"tracety/error-class-model-vs-impl/{dash mc}/{dash ic}"
+      if mc == ic || (rootErr mc && rootErr ic) then none else some s!"tracety/error-class-model-vs-impl/{dash mc}/{dash ic}"
     | _ => none
   (c, a)
 
